@@ -63,9 +63,26 @@ def run(ctx):
     core.lean_phase(ctx)
     rng = ctx.rng
     reqs, metas = [], []
+
+    def flush():
+        outs = ctx.driver.run(reqs) if reqs else []
+        for req, (op, replay, exp), out in zip(reqs, metas, outs):
+            ctx.count("model_requests")
+            if op == "inside":
+                # the monitor is sufficient, not necessary: a step may re-create the node's own close tokens from its slice
+                # (range reaching past the closing) and still leave everything outside intact — such steps are decided by
+                # the oracle above only; the theorem covers the steps the monitor accepts
+                ctx.count("monitor isoSafe:" + str(out.get("ok") == [True]).lower())
+                continue
+            if out.get("ok") != exp:
+                ctx.mismatch(op, replay, exp if op != "apply" else "recorded document", out if ("err" in out or op != "apply") else "different document")
+        del reqs[:], metas[:]
+
     fams = [schemas.by_name("iso"), schemas.by_name("table")]
     kinds = ["delete_range", "replace_range", "replace", "delete", "replace_with", "replace_range_with", "insert"]
     for si in range(ctx.budget(8, 40)):
+        if len(reqs) >= 15000:
+            flush()     # keep memory bounded in long runs
         info = fams[si % 2]
         schema = info.schema
         ctx.driver.add_schema(info)
@@ -189,17 +206,7 @@ def run(ctx):
                                 ctx.violation("split-crosses", "can_split approves a split that crosses the isolating node's boundary",
                                               {"schema": info.name, "doc": d.to_json(), "pos": p, "depth": dp, "iso": [a, b], "iso_depth": depth})
                     ctx.count("lift/split probes")
-    outs = ctx.driver.run(reqs) if reqs else []
-    for req, (op, replay, exp), out in zip(reqs, metas, outs):
-        ctx.count("model_requests")
-        if op == "inside":
-            # the monitor is sufficient, not necessary: a step may re-create the node's own close tokens from its slice
-            # (range reaching past the closing) and still leave everything outside intact — such steps are decided by
-            # the oracle above only; the theorem covers the steps the monitor accepts
-            ctx.count("monitor isoSafe:" + str(out.get("ok") == [True]).lower())
-            continue
-        if out.get("ok") != exp:
-            ctx.mismatch(op, replay, exp if op != "apply" else "recorded document", out if ("err" in out or op != "apply") else "different document")
+    flush()
     return ctx.finish(
         rule="a case is (isolating/table-like schema, document containing isolating nodes, one isolating node, a range inside its "
              "content incl. the whole content, one replace-family operation with a random slice/node); plus Slice.max_open on every "
